@@ -693,6 +693,12 @@ impl BytecodeVM {
     /// This method enables step-by-step execution for host-controlled interruption.
     #[inline]
     pub fn step(&mut self, interp: &mut Interpreter) -> VmStepResult {
+        #[cfg(tsrun_verif)]
+        if !crate::verif::on_instruction() {
+            return VmStepResult::Terminal(Box::new(VmResult::Error(JsError::internal_error(
+                "verif: instruction fuel exhausted",
+            ))));
+        }
         let Some(op) = self.fetch() else {
             // End of bytecode - return last result or undefined
             let result = self
@@ -850,6 +856,8 @@ impl BytecodeVM {
     /// This method runs until a terminal state is reached. For step-by-step control,
     /// use the `step()` method instead.
     pub fn run(&mut self, interp: &mut Interpreter) -> VmResult {
+        #[cfg(tsrun_verif)]
+        let _verif_depth = crate::verif::enter_run();
         loop {
             match self.step(interp) {
                 VmStepResult::Continue => continue,
